@@ -11,3 +11,4 @@ open O2P.Gate
 #print axioms cover_sound_universe
 #print axioms or_inference_sound
 #print axioms or_test_spec
+#print axioms or_inference_leaves_sound
